@@ -1,0 +1,25 @@
+//go:build verif
+
+// Contracts for package imapmemserver, checked by /verif/govc (see
+// /verif/DESIGN.md). Only compiled with the build tag "verif".
+
+package imapmemserver
+
+import (
+	"github.com/emersion/go-imap/v2"
+	"github.com/emersion/go-imap/v2/imapserver"
+)
+
+var _ imap.UID
+var _ *imapserver.FetchWriter
+
+// ---------------------------------------------------------------------------
+// C08: every sequence number put on the wire refers to a message the client
+// has been told about (it is never 0).
+
+//@ closure 0 of func (mbox *MailboxView) Fetch(w *imapserver.FetchWriter, numSet imap.NumSet, options *imap.FetchOptions) (err error)
+//@   props C08:callsite,pre@call
+//@   params (seqNum uint32, msg *message)
+//@   captures (mbox *MailboxView)
+//@   requires mbox != nil && imapserver.TrackerWF(mbox.tracker)
+//@   callsite FetchWriter.CreateMessage(fw *imapserver.FetchWriter, n uint32) requires n != 0
